@@ -940,13 +940,9 @@ type kickAction struct {
 var errEmptyId = group.ProtocolError("empty id")
 
 func remove(v string, l []string) []string {
-	for i, w := range l {
-		if v == w {
-			l = append(l[:i], l[i+1:]...)
-			return l
-		}
-	}
-	return l
+	return slices.DeleteFunc(l, func(w string) bool {
+		return v == w
+	})
 }
 
 func addnew(v string, l []string) []string {
